@@ -1,5 +1,4 @@
 """C18 — topology diagnosis and root repair: sidecar contracts."""
-import numpy as np
 import z3
 
 from pyvc import ext_C18
@@ -468,10 +467,6 @@ def register_checker(R):
         ok = all_rows(rows_of(ids), lambda a: z3.Or(z3.And(z3.BoolVal(bool(ex)), pids.get(a).z == -1), children_of(E, pids, ids.get(a).z) <= 2))
         return to_z3(v["result"], "bool") == ok
 
-    def is_bool(E, v, o):
-        r = v["result"]
-        return isinstance(r, (bool, np.bool_)) or (isinstance(r, Sym) and r.kind == "bool")
-
     # loop 0: children[k] lists, in row order, the ids of the rows whose parent id is k
     # (ghost rrow(k, j) = the row behind the j-th entry of children[k])
     rrow = z3.Function("rrow", z3.IntSort(), z3.IntSort(), z3.IntSort())
@@ -667,10 +662,13 @@ def register(R):  # noqa: F811
 # ===========================================================================
 # checker.py: is_sorted
 def register_is_sorted(R):
-    def setup(S):
+    def setup(S, size=None):
         # ANY table of (id, parent id) pairs: forests, tables with cycles, dangling parents, ids that are not positions
-        n = S.int("n")
-        S.assume(n.z >= 0)
+        if size is None:
+            n = S.int("n")
+            S.assume(n.z >= 0)
+        else:
+            n = size  # the fixed-size registration: exactly `size` rows, contents arbitrary
         ids, pids = S.arr("int", n=n, name="ids"), S.arr("int", n=n, name="pids")
         ids.frozen = pids.frozen = True
         return dict(topology=(ids, pids))
@@ -678,9 +676,7 @@ def register_is_sorted(R):
     def post(E, v, o):
         # the property's clause "parents precede children": every row that has a parent carries a larger id than that parent
         ids, pids = o["topology"]
-        n = ids.nz()
-        x = z3.Int(fresh_name("x"))
-        every = z3.ForAll([x], z3.Implies(z3.And(x >= 0, x < n), z3.Or(z3.Select(pids.arr, x) == -1, z3.Select(pids.arr, x) < z3.Select(ids.arr, x))))
+        every = all_rows(rows_of(ids), lambda x: z3.Or(z3.Select(pids.arr, x) == -1, z3.Select(pids.arr, x) < z3.Select(ids.arr, x)))
         return to_z3(v["result"], "bool") == every
 
     def is_bool(E, v, o):
@@ -692,6 +688,11 @@ def register_is_sorted(R):
                    ("answers-with-a-bool", is_bool)],
           notes="any table: symbolic number of rows (0 included), arbitrary ids and parent ids (forests, cycles, self loops, dangling parents); "
                 "both input columns frozen; no loop, so the answer is given on every table (the former walk from node 0 did not terminate on a cycle)")
+    R.add(f"{CHK}:is_sorted", prop="C18", variants={fixed_name(m): (lambda S, m=m: setup(S, size=m)) for m in FIXED_ROWS}, returns="bool",
+          options=dict(allow_symbolic_unroll=True),
+          ensures=[("true-iff-every-row-with-a-parent-has-a-larger-id-than-its-parent-on-ANY-table", post),
+                   ("answers-with-a-bool", is_bool)],
+          notes=FIXED_NOTE)
 
 
 _reg_4 = register
